@@ -205,7 +205,8 @@ def exit_loopback_cases():
     from pynetdicom2 import exceptions
     for contexts_accepted in (True, False):
         for body_raises in (False, ValueError('body'), exceptions.AssociationRejectedError(2, 1, 3),
-                            exceptions.DCMTimeoutError(), exceptions.ClassNotSupportedError('x')):
+                            exceptions.DCMTimeoutError(), exceptions.ClassNotSupportedError('x'),
+                            exceptions.AssociationAbortedError(2, 6), exceptions.AssociationReleasedError()):
             srv = aemod.AE('SERVER', 0).add_scp(sopclass.verification_scp)
             log = []
             with loopback.serving(srv) as port:
